@@ -49,3 +49,6 @@ SPEC = {
         "C09_cidr_leniencies_observed and counted in the input distribution (ci_lenient_*)",
     ],
 }
+
+import vlib  # noqa: E402
+vlib.merge_part(SPEC, "C09gen_part")
